@@ -55,13 +55,22 @@ def step(w, op, frm, to):
     return "effect", det
 
 
+def decorate(w):
+    """G['node_prefix']: every node carries this value in its own `prefix` field (the field an XML import sets on a
+    qualified element).  Which bindings a node SEES is a matter of the namespace maps alone."""
+    if G.get("node_prefix"):
+        for x in w.nodes:
+            x.prefix = G["node_prefix"]
+    return w
+
+
 def w_paths(tasks):
     out, n, div = [], 0, 0
     graph, states = G["graph"], G["states"]
 
     def run_path(edges):
         nonlocal n, div
-        w = World.build(states[edges[0][0]], )
+        w = decorate(World.build(states[edges[0][0]], ))
         ops = []
         for (fk, op, tk) in edges:
             ops.append(op)
@@ -95,7 +104,7 @@ def w_expand(items):
         # current abstract key
         key = path[-1][2] if path else ik
         for (op, tk) in graph[key]:
-            w = World.build(states[ik])
+            w = decorate(World.build(states[ik]))
             bad = None
             for (fk, o, t2) in path:
                 v, det = step(w, o, states[fk], states[t2])
@@ -242,12 +251,15 @@ def run(rep, tier, seed):
             raise MachineryError("MC_Ns4xy: the specification violates its own properties:\n" + r4.out[-2000:])
         rep.add_tlc(r4, "MC_Ns4xy.cfg (Frame, NsEffect only)")
     nP = applied = nkeys = 0
-    for cfg, do_paths, cap in plan:
-        a1, a2, a3 = explore(rep, cfg, do_paths, cap, report)
+    plan = [(c, d, k, None) for (c, d, k) in plan] + [("MC_Ns3x.cfg", True, 4000, "x")]      # once more with every node's own prefix field set to x
+    for cfg, do_paths, cap, node_prefix in plan:
+        G["node_prefix"] = node_prefix
+        a1, a2, a3 = explore(rep, cfg, do_paths, cap, lambda key, det, replay: report(key + (":nodes-carry-prefix" if G.get("node_prefix") else ""), det, replay))
         nP += a1
         applied += a2
         nkeys += a3
 
+    G["node_prefix"] = None
     # (c) code -> spec
     ntr, nst = (80, 120) if tier == "quick" else (800, 250)
     rnd = random.Random(seed)
